@@ -179,7 +179,9 @@ def probe(S, case):
             scn = max(np.abs(C[k] - case["bg"]).max(), 1e-300)
             if abs(lhs_f - rhs_f) > tol * sf:
                 out.append(("reciprocity:flux:halo-%s" % hk, "tower (%d,%d) level %d: point_measurement(q, fp)=%.12g, forward flux=%.12g" % (im, jm, lv[k], lhs_f, rhs_f)))
-            if abs(lhs_c - rhs_c) > tol * scn:
+            # C - bg is formed from stored values: its own rounding is relative to |C| ~ |bg| (storage rounding in single)
+            store = (2.0 ** -22 if case["precision"] == "single" else 2.0 ** -50) * abs(case["bg"])
+            if abs(lhs_c - rhs_c) > tol * scn + store:
                 out.append(("reciprocity:conc:halo-%s" % hk, "tower (%d,%d) level %d: point_measurement(q, G)=%.12g, forward conc-bg=%.12g" % (im, jm, lv[k], lhs_c, rhs_c)))
     return out
 
